@@ -442,21 +442,27 @@ class Interp:
         return self.structural(e.primitive, e.params, a, {0})
 
     def _dyn_slice_sym(self, e, op, starts):
+        """dynamic_slice with symbolic start indices: an if-then-else chain over the clamped range
+        of each symbolic index (XLA clamps start indices so that the slice stays in bounds)"""
         op = self.lift(op)
-        sizes = e.params["slice_sizes"]
-        if op.ndim != 1:
-            raise Unsupported("symbolic dynamic_slice only 1-D")
-        n, p = op.shape[0], sizes[0]
-        s = self.lift(starts[0]).reshape(-1)[0]
-        # clamp start to [0, n-p]
-        sc = z3.If(s < 0, 0, z3.If(s > n - p, n - p, s))
-        out = np.empty((p,), dtype=object)
-        for j in range(p):
-            expr = op[n - p + j]
-            for st in range(n - p - 1, -1, -1):
-                expr = z3.If(sc == st, op[st + j], expr)
-            out[j] = expr
-        return out
+        sizes = tuple(e.params["slice_sizes"])
+
+        def rec(arr, axis):
+            if axis == arr.ndim:
+                return arr
+            n, p = arr.shape[axis], sizes[axis]
+            st = starts[axis]
+            if not is_sym(st):
+                s0 = int(np.clip(int(np.asarray(st)), 0, n - p))
+                return rec(np.take(arr, range(s0, s0 + p), axis=axis), axis + 1)
+            s = self.lift(st).reshape(-1)[0]
+            cands = [rec(np.take(arr, range(c, c + p), axis=axis), axis + 1) for c in range(0, n - p + 1)]
+            out = cands[-1]
+            for c in range(n - p - 1, -1, -1):
+                cond = (s <= c) if c == 0 else (s == c)
+                out = self.ew(lambda a_, b_, cond=cond: a_ if (z3.is_expr(a_) and z3.is_expr(b_) and a_.eq(b_)) else z3.If(cond, a_, b_), cands[c], out)
+            return out
+        return rec(op, 0)
 
     def p_dynamic_update_slice(self, e, a):
         op, upd, *starts = a
